@@ -82,16 +82,17 @@ def build(case):
     other_ev = ev + '~unrelated'
     other_ns = ns + '/unrelated'
     # for ev == '*' the exact-name key IS the catch-all key: bits 0 and 2 are forced to 0 by the generators
-    if bits[0] and ev != '*':
+    # likewise for ns == '*' the namespace key IS the catch-all key: bits 0, 1 and 4 are forced to 0
+    if bits[0] and ev != '*' and ns != '*':
         obj.on(ev, handler=log.recorder('fnNsEv', co), namespace=ns)
-    if bits[1]:
+    if bits[1] and ns != '*':
         obj.on('*', handler=log.recorder('fnNsStar', co), namespace=ns)
     if bits[2] and ev != '*':
         obj.on(ev, handler=log.recorder('fnStarEv', co), namespace='*')
     if bits[3]:
         obj.on('*', handler=log.recorder('fnStarStar', co), namespace='*')
     cls = ns_class(kind)
-    if bits[4]:
+    if bits[4] and ns != '*':
         o = cls(ns)
         if case['m5']:
             setattr(o, 'on_' + ev, log.recorder('clsNs', co))
@@ -182,15 +183,17 @@ def oracle(case):
     reserved = ev in DOC_RESERVED[kind]
     # an exact-name handler exists only for a name other than the catch-all key: an event literally
     # named '*' is an ordinary event that nobody can register a handler of its own for
-    if b[0] and ev != '*':
+    # … and a namespace literally named '*' is an ordinary namespace that nothing can be registered for
+    own = ns != '*'
+    if own and b[0] and ev != '*':
         return {'res': 'invoke', 'slot': 'fnNsEv', 'args': []}
-    if b[1] and not reserved:
+    if own and b[1] and not reserved:
         return {'res': 'invoke', 'slot': 'fnNsStar', 'args': [ev]}
     if b[2] and ev != '*':
         return {'res': 'invoke', 'slot': 'fnStarEv', 'args': [ns]}
     if b[3] and not reserved:
         return {'res': 'invoke', 'slot': 'fnStarStar', 'args': [ev, ns]}
-    if b[4]:                # the class-based namespace registered for the namespace: method on_<event>
+    if own and b[4]:        # the class-based namespace registered for the namespace: method on_<event>
         return {'res': 'invoke', 'slot': 'clsNs', 'args': []} if case['m5'] else \
             {'res': 'dropped', 'slot': 'clsNs'}
     if b[5]:                # the catch-all class-based namespace
@@ -225,14 +228,16 @@ def exhaustive_cases(reserved_by_kind):
     for kind in KINDS:
         events = ['my event', '*', '**', '*x'] + sorted(set(reserved_by_kind[kind]) | DOC_RESERVED[kind])
         for mode in ('sync', 'coroutine'):
-            for ev in events:
+            for ns, ev in itertools.product(['/chat', '*', '**', '/*'], events):
                 for bits in itertools.product([0, 1], repeat=6):
                     if ev == '*' and (bits[0] or bits[2]):
                         continue        # no exact-name handler can exist for the catch-all key
+                    if ns == '*' and (bits[0] or bits[1] or bits[4]):
+                        continue        # nothing can be registered for the catch-all key as a namespace
                     for m5 in ([1, 0] if bits[4] else [1]):
                         for m6 in ([1, 0] if bits[5] else [1]):
-                            for un in range(4):
-                                yield {'kind': kind, 'mode': mode, 'ns': '/chat', 'ev': ev,
+                            for un in (range(4) if ns in ('/chat', '*') else [3]):
+                                yield {'kind': kind, 'mode': mode, 'ns': ns, 'ev': ev,
                                        'bits': list(bits), 'm5': m5, 'm6': m6, 'un': un,
                                        'args': ['sid-1', {'k': [1, 2]}] if ev not in ('connect_error',)
                                        else ['reason']}
@@ -259,8 +264,8 @@ def gen_name(rng, kind):
 def gen_ns(rng):
     while True:
         ns = G.gen_namespace(rng, allow_none=False)
-        if ns == '*':
-            continue
+        if rng.random() < 0.1:
+            ns = rng.choice(['*', '*', '**', '/*', '*/', ' *'])
         try:
             C.s2w(ns)
         except C.Unrepresentable:
@@ -274,7 +279,10 @@ def random_case(rng):
     ev = gen_name(rng, kind)
     if ev == '*':
         bits[0] = bits[2] = 0
-    return {'kind': kind, 'mode': rng.choice(['sync', 'coroutine']), 'ns': gen_ns(rng),
+    ns = gen_ns(rng)
+    if ns == '*':
+        bits[0] = bits[1] = bits[4] = 0
+    return {'kind': kind, 'mode': rng.choice(['sync', 'coroutine']), 'ns': ns,
             'ev': ev, 'bits': bits,
             'm5': int(rng.random() < 0.75), 'm6': int(rng.random() < 0.75), 'un': rng.randint(0, 3),
             'args': [G.gen_value(rng, 2, 0.15) for _ in range(rng.randint(0, 4))]}
@@ -319,6 +327,8 @@ def execute(ctx, cases, loop, stats, nontrivial, samples):
         ctx.count('reserved' if ans['reserved'] else 'ordinary')
         if case['ev'] == '*':
             ctx.count('event_named_star')
+        if case['ns'] == '*':
+            ctx.count('namespace_named_star')
         if sum(case['bits']) >= 2:
             nontrivial.add(json.dumps([case['kind'], case['mode'], case['ns'], case['ev'], case['bits'],
                                        case['m5'], case['m6'], case['un']]))
@@ -387,17 +397,6 @@ def run(ctx):
         if not ok:
             ctx.violation('proof', 'leanchecker rejects Sio.Props.C13: ' + out[-800:], {'leanchecker': out[-800:]},
                           no_input=True)
-    # informational probe (outside the quantified domain): a namespace literally named '*'
-    try:
-        srv = make_object('server')
-        seen = []
-        srv.on('msg', handler=lambda *a: seen.append(a), namespace='*')
-        srv._trigger_event('msg', '*', 'SID', 'payload')
-        srv._trigger_event('msg', '/x', 'SID', 'payload')
-        ctx.notes.append("namespace literally named '*' (informational): handlers['*']['msg'] receives %r for "
-                         "namespace '*' and %r for namespace '/x'" % (seen[0], seen[1]))
-    except Exception as ex:      # noqa
-        ctx.notes.append('namespace-star probe failed: %r' % ex)
     C.fold_proof_failures(ctx)
     # keep the report small: one replay per distinct (kind of violation, class)
     if len(ctx.violations) > 12:
@@ -414,7 +413,7 @@ def run(ctx):
         'exhaustive': True,
         'exhaustive_cases': len(ex), 'random_cases': len(rnd),
         'evaluations': len(ex) + len(rnd), 'distinct_nontrivial': len(nontrivial),
-        'rule': 'exhaustive: 2^6 presence bits x {class has on_<event> or not, per registered class} x '
+        'rule': 'exhaustive: {namespace "/chat", "*", "**", "/*"} x 2^6 presence bits x {class has on_<event> or not, per registered class} x '
                 '{ordinary event, the event names "*", "**", "*x", each reserved name of the class} x {unrelated handlers: none, same namespace, '
                 'catch-all/other namespace, both} x {Server, AsyncServer, Client, AsyncClient} x {sync, coroutine '
                 'recorders}; plus random namespaces, event names (reserved ones included), argument lists. '
@@ -422,9 +421,7 @@ def run(ctx):
         'samples': samples, 'traces_validated_against_impl': len(ex) + len(rnd),
         'oracle_failures': stats['oracle_fail'], 'model_disagreements': stats['model_fail'],
     })
-    ctx.assumptions += ['namespace and event names are str without lone surrogates; event names include "*"; the '
-                        'namespace is not literally "*" (see notes: as coded the catch-all namespace then loses its '
-                        'namespace argument; theorem C13.star_namespace)',
+    ctx.assumptions += ['namespace and event names are str without lone surrogates ("*" included for both)',
                         'handlers are truthy callables accepting the arguments they are given',
                         'class-based namespaces do not override trigger_event']
 
